@@ -89,6 +89,27 @@ func init() {
 						kept = append(kept, nd)
 					}
 				}
+				if len(kept) > 0 && r.Intn(2) == 0 {
+					// a FIRST write that is refused (one resource points outside the package) must leave nothing behind in the
+					// read-writer: the second, valid write on the same object deletes what the READ recorded, nothing else
+					victim := kept[r.Intn(len(kept))]
+					oldP := victim.GetAnnotations()["internal.config.kubernetes.io/path"]
+					oldL := victim.GetAnnotations()["config.kubernetes.io/path"]
+					bad := pickS(r, []string{"../shared/keep.yaml", "../sibling.yaml", "../../other/victim.yaml"})
+					victim.PipeE(yaml.SetAnnotation("internal.config.kubernetes.io/path", bad), yaml.SetAnnotation("config.kubernetes.io/path", bad))
+					e1 := rw.Write(kept)
+					in["firstWrite"] = map[string]interface{}{"path": bad, "refused": e1 != nil}
+					if oldP != "" {
+						victim.PipeE(yaml.SetAnnotation("internal.config.kubernetes.io/path", oldP))
+					} else {
+						victim.PipeE(yaml.ClearAnnotation("internal.config.kubernetes.io/path"))
+					}
+					if oldL != "" {
+						victim.PipeE(yaml.SetAnnotation("config.kubernetes.io/path", oldL))
+					} else {
+						victim.PipeE(yaml.ClearAnnotation("config.kubernetes.io/path"))
+					}
+				}
 				werr := rw.Write(kept)
 				o.note("pkg-rw-"+map[bool]string{true: "ok", false: "rejected"}[werr == nil], in)
 				after := dumpFS(fs, "/")
